@@ -3,7 +3,7 @@ import Percival.Model.WipeLang
 namespace Percival.Gen.Wipe
 open Percival.Model.WipeLang
 
-/-- `blinded_modexp` in crypto/crypto_dh.c -/
+/-- `blinded_modexp` in crypto/crypto_dh.c, configuration [] -/
 def blindedModexp : List Stmt := [
   .call "two_exp_256_bn" "BN_bin2bn" ["two_exp_256", "33", "NULL"] (some "err0"),
   .call "priv_bn" "BN_bin2bn" ["priv", "CRYPTO_DH_PRIVLEN", "NULL"] (some "err1"),
@@ -56,7 +56,11 @@ def blindedModexp : List Stmt := [
   .label "err0",
   .ret]
 
-/-- `crypto_dh_generate_pub` in crypto/crypto_dh.c -/
+/-- `blinded_modexp`: one statement list per preprocessor configuration (named by the macros defined in it) -/
+def blindedModexpConfigs : List (String × List Stmt) := [
+  ("", blindedModexp)]
+
+/-- `crypto_dh_generate_pub` in crypto/crypto_dh.c, configuration [] -/
 def dhGeneratePub : List Stmt := [
   .call "two" "BN_new" [] (some "err0"),
   .call "" "BN_set_word" ["two", "2"] (some "err1"),
@@ -68,7 +72,11 @@ def dhGeneratePub : List Stmt := [
   .label "err0",
   .ret]
 
-/-- `crypto_dh_compute` in crypto/crypto_dh.c -/
+/-- `crypto_dh_generate_pub`: one statement list per preprocessor configuration (named by the macros defined in it) -/
+def dhGeneratePubConfigs : List (String × List Stmt) := [
+  ("", dhGeneratePub)]
+
+/-- `crypto_dh_compute` in crypto/crypto_dh.c, configuration [] -/
 def dhCompute : List Stmt := [
   .call "a" "BN_bin2bn" ["pub", "CRYPTO_DH_PUBLEN", "NULL"] (some "err0"),
   .call "" "blinded_modexp" ["key", "a", "priv"] (some "err1"),
@@ -79,13 +87,21 @@ def dhCompute : List Stmt := [
   .label "err0",
   .ret]
 
-/-- `SHA256_Final` in alg/sha256.c -/
+/-- `crypto_dh_compute`: one statement list per preprocessor configuration (named by the macros defined in it) -/
+def dhComputeConfigs : List (String × List Stmt) := [
+  ("", dhCompute)]
+
+/-- `SHA256_Final` in alg/sha256.c, configuration [] -/
 def sha256Final : List Stmt := [
   .call "" "SHA256_Final_internal" ["digest", "ctx", "tmp32"] none,
   .call "" "insecure_memzero" ["ctx", "sizeof(SHA256_CTX)"] none,
   .call "" "insecure_memzero" ["tmp32", "sizeof(uint32_t) * 72"] none]
 
-/-- `SHA256_Buf` in alg/sha256.c -/
+/-- `SHA256_Final`: one statement list per preprocessor configuration (named by the macros defined in it) -/
+def sha256FinalConfigs : List (String × List Stmt) := [
+  ("", sha256Final)]
+
+/-- `SHA256_Buf` in alg/sha256.c, configuration [] -/
 def sha256Buf : List Stmt := [
   .call "" "SHA256_Init" ["&ctx"] none,
   .call "" "SHA256_Update_internal" ["&ctx", "in", "len", "tmp32"] none,
@@ -93,14 +109,22 @@ def sha256Buf : List Stmt := [
   .call "" "insecure_memzero" ["&ctx", "sizeof(SHA256_CTX)"] none,
   .call "" "insecure_memzero" ["tmp32", "sizeof(uint32_t) * 72"] none]
 
-/-- `HMAC_SHA256_Final` in alg/sha256.c -/
+/-- `SHA256_Buf`: one statement list per preprocessor configuration (named by the macros defined in it) -/
+def sha256BufConfigs : List (String × List Stmt) := [
+  ("", sha256Buf)]
+
+/-- `HMAC_SHA256_Final` in alg/sha256.c, configuration [] -/
 def hmacSha256Final : List Stmt := [
   .call "" "HMAC_SHA256_Final_internal" ["digest", "ctx", "tmp32", "ihash"] none,
   .call "" "insecure_memzero" ["ctx", "sizeof(HMAC_SHA256_CTX)"] none,
   .call "" "insecure_memzero" ["tmp32", "sizeof(uint32_t) * 72"] none,
   .call "" "insecure_memzero" ["ihash", "32"] none]
 
-/-- `HMAC_SHA256_Buf` in alg/sha256.c -/
+/-- `HMAC_SHA256_Final`: one statement list per preprocessor configuration (named by the macros defined in it) -/
+def hmacSha256FinalConfigs : List (String × List Stmt) := [
+  ("", hmacSha256Final)]
+
+/-- `HMAC_SHA256_Buf` in alg/sha256.c, configuration [] -/
 def hmacSha256Buf : List Stmt := [
   .call "" "HMAC_SHA256_Init_internal" ["&ctx", "K", "Klen", "tmp32", "&tmp8[0]", "&tmp8[64]"] none,
   .call "" "HMAC_SHA256_Update_internal" ["&ctx", "in", "len", "tmp32"] none,
@@ -109,52 +133,118 @@ def hmacSha256Buf : List Stmt := [
   .call "" "insecure_memzero" ["tmp32", "sizeof(uint32_t) * 72"] none,
   .call "" "insecure_memzero" ["tmp8", "96"] none]
 
-/-- `SHA1_Final` in alg/sha1.c -/
+/-- `HMAC_SHA256_Buf`: one statement list per preprocessor configuration (named by the macros defined in it) -/
+def hmacSha256BufConfigs : List (String × List Stmt) := [
+  ("", hmacSha256Buf)]
+
+/-- `SHA1_Final` in alg/sha1.c, configuration [] -/
 def sha1Final : List Stmt := [
   .call "" "SHA1_Pad" ["ctx"] none,
   .call "" "be32enc_vect" ["digest", "ctx->state", "20"] none,
   .call "" "insecure_memzero" ["ctx", "sizeof(SHA1_CTX)"] none]
 
-/-- `HMAC_SHA1_Final` in alg/sha1.c -/
+/-- `SHA1_Final`: one statement list per preprocessor configuration (named by the macros defined in it) -/
+def sha1FinalConfigs : List (String × List Stmt) := [
+  ("", sha1Final)]
+
+/-- `HMAC_SHA1_Final` in alg/sha1.c, configuration [] -/
 def hmacSha1Final : List Stmt := [
   .call "" "SHA1_Final" ["ihash", "&ctx->ictx"] none,
   .call "" "SHA1_Update" ["&ctx->octx", "ihash", "20"] none,
   .call "" "SHA1_Final" ["digest", "&ctx->octx"] none,
   .call "" "insecure_memzero" ["ihash", "20"] none]
 
-/-- `MD5_Final` in alg/md5.c -/
+/-- `HMAC_SHA1_Final`: one statement list per preprocessor configuration (named by the macros defined in it) -/
+def hmacSha1FinalConfigs : List (String × List Stmt) := [
+  ("", hmacSha1Final)]
+
+/-- `MD5_Final` in alg/md5.c, configuration [] -/
 def md5Final : List Stmt := [
   .call "" "MD5_Pad" ["ctx"] none,
   .call "" "le32enc_vect" ["digest", "ctx->state", "16"] none,
   .call "" "insecure_memzero" ["ctx", "sizeof(MD5_CTX)"] none]
 
-/-- `HMAC_MD5_Final` in alg/md5.c -/
+/-- `MD5_Final`: one statement list per preprocessor configuration (named by the macros defined in it) -/
+def md5FinalConfigs : List (String × List Stmt) := [
+  ("", md5Final)]
+
+/-- `HMAC_MD5_Final` in alg/md5.c, configuration [] -/
 def hmacMd5Final : List Stmt := [
   .call "" "MD5_Final" ["ihash", "&ctx->ictx"] none,
   .call "" "MD5_Update" ["&ctx->octx", "ihash", "16"] none,
   .call "" "MD5_Final" ["digest", "&ctx->octx"] none,
   .call "" "insecure_memzero" ["ihash", "16"] none]
 
-/-- `crypto_aes_key_free` in crypto/crypto_aes.c -/
+/-- `HMAC_MD5_Final`: one statement list per preprocessor configuration (named by the macros defined in it) -/
+def hmacMd5FinalConfigs : List (String × List Stmt) := [
+  ("", hmacMd5Final)]
+
+/-- `crypto_aes_key_free` in crypto/crypto_aes.c, configuration [CPUSUPPORT_X86_AESNI HWACCEL] -/
 def aesKeyFree : List Stmt := [
-  .cond "hwaccel == HW_X86_AESNI" "<return>",
-  .cond "hwaccel == HW_ARM_AES" "<return>",
+  .cond "!(hwaccel == HW_X86_AESNI)" "<else1>",
+  .call "" "crypto_aes_key_free_aesni" ["(void *)key"] none,
+  .ret,
+  .label "<else1>",
   .cond "key == NULL" "<return>",
   .call "" "insecure_memzero" ["key", "sizeof(AES_KEY)"] none,
   .call "" "free" ["key"] none]
 
-/-- `crypto_aes_key_free_aesni` in crypto/crypto_aes_aesni.c -/
+/-- `crypto_aes_key_free`: one statement list per preprocessor configuration (named by the macros defined in it) -/
+def aesKeyFreeConfigs : List (String × List Stmt) := [
+  ("CPUSUPPORT_X86_AESNI HWACCEL", aesKeyFree),
+  ("", [
+    .cond "key == NULL" "<return>",
+    .call "" "insecure_memzero" ["key", "sizeof(AES_KEY)"] none,
+    .call "" "free" ["key"] none]),
+  ("CPUSUPPORT_ARM_AES HWACCEL", [
+    .cond "!(hwaccel == HW_ARM_AES)" "<else1>",
+    .call "" "crypto_aes_key_free_arm" ["(void *)key"] none,
+    .ret,
+    .label "<else1>",
+    .cond "key == NULL" "<return>",
+    .call "" "insecure_memzero" ["key", "sizeof(AES_KEY)"] none,
+    .call "" "free" ["key"] none]),
+  ("CPUSUPPORT_ARM_AES CPUSUPPORT_X86_AESNI HWACCEL", [
+    .cond "!(hwaccel == HW_X86_AESNI)" "<else1>",
+    .call "" "crypto_aes_key_free_aesni" ["(void *)key"] none,
+    .ret,
+    .label "<else1>",
+    .cond "!(hwaccel == HW_ARM_AES)" "<else2>",
+    .call "" "crypto_aes_key_free_arm" ["(void *)key"] none,
+    .ret,
+    .label "<else2>",
+    .cond "key == NULL" "<return>",
+    .call "" "insecure_memzero" ["key", "sizeof(AES_KEY)"] none,
+    .call "" "free" ["key"] none])]
+
+/-- `crypto_aes_key_free_aesni` in crypto/crypto_aes_aesni.c, configuration [CPUSUPPORT_X86_AESNI] -/
 def aesKeyFreeAesni : List Stmt := [
   .cond "key == NULL" "<return>",
   .call "" "insecure_memzero" ["key", "sizeof(struct crypto_aes_key_aesni)"] none,
   .call "" "free" ["key"] none]
 
-/-- `crypto_aes_key_expand` in crypto/crypto_aes.c -/
+/-- `crypto_aes_key_free_aesni`: one statement list per preprocessor configuration (named by the macros defined in it) -/
+def aesKeyFreeAesniConfigs : List (String × List Stmt) := [
+  ("CPUSUPPORT_X86_AESNI", aesKeyFreeAesni)]
+
+/-- `crypto_aes_key_free_arm` in crypto/crypto_aes_arm.c, configuration [CPUSUPPORT_ARM_AES] -/
+def aesKeyFreeArm : List Stmt := [
+  .cond "key == NULL" "<return>",
+  .call "" "insecure_memzero" ["key", "sizeof(struct crypto_aes_key_arm)"] none,
+  .call "" "free" ["key"] none]
+
+/-- `crypto_aes_key_free_arm`: one statement list per preprocessor configuration (named by the macros defined in it) -/
+def aesKeyFreeArmConfigs : List (String × List Stmt) := [
+  ("CPUSUPPORT_ARM_AES", aesKeyFreeArm)]
+
+/-- `crypto_aes_key_expand` in crypto/crypto_aes.c, configuration [CPUSUPPORT_X86_AESNI HWACCEL] -/
 def aesKeyExpand : List Stmt := [
   .call "" "assert" ["(len == 16) || (len == 32)"] none,
   .call "" "hwaccel_init" [] none,
-  .cond "hwaccel == HW_X86_AESNI" "<return>",
-  .cond "hwaccel == HW_ARM_AES" "<return>",
+  .cond "!(hwaccel == HW_X86_AESNI)" "<else1>",
+  .call "" "crypto_aes_key_expand_aesni" ["key_unexpanded", "len"] none,
+  .ret,
+  .label "<else1>",
   .call "kexp" "malloc" ["sizeof(AES_KEY)"] (some "err0"),
   .call "" "AES_set_encrypt_key" ["key_unexpanded", "(int)(len * 8)", "kexp"] (some "err1"),
   .ret,
@@ -163,40 +253,118 @@ def aesKeyExpand : List Stmt := [
   .label "err0",
   .ret]
 
-/-- `crypto_aes_key_expand_aesni` in crypto/crypto_aes_aesni.c -/
+/-- `crypto_aes_key_expand`: one statement list per preprocessor configuration (named by the macros defined in it) -/
+def aesKeyExpandConfigs : List (String × List Stmt) := [
+  ("CPUSUPPORT_X86_AESNI HWACCEL", aesKeyExpand),
+  ("", [
+    .call "" "assert" ["(len == 16) || (len == 32)"] none,
+    .call "kexp" "malloc" ["sizeof(AES_KEY)"] (some "err0"),
+    .call "" "AES_set_encrypt_key" ["key_unexpanded", "(int)(len * 8)", "kexp"] (some "err1"),
+    .ret,
+    .label "err1",
+    .call "" "free" ["kexp"] none,
+    .label "err0",
+    .ret]),
+  ("CPUSUPPORT_ARM_AES HWACCEL", [
+    .call "" "assert" ["(len == 16) || (len == 32)"] none,
+    .call "" "hwaccel_init" [] none,
+    .cond "!(hwaccel == HW_ARM_AES)" "<else1>",
+    .call "" "crypto_aes_key_expand_arm" ["key_unexpanded", "len"] none,
+    .ret,
+    .label "<else1>",
+    .call "kexp" "malloc" ["sizeof(AES_KEY)"] (some "err0"),
+    .call "" "AES_set_encrypt_key" ["key_unexpanded", "(int)(len * 8)", "kexp"] (some "err1"),
+    .ret,
+    .label "err1",
+    .call "" "free" ["kexp"] none,
+    .label "err0",
+    .ret]),
+  ("CPUSUPPORT_ARM_AES CPUSUPPORT_X86_AESNI HWACCEL", [
+    .call "" "assert" ["(len == 16) || (len == 32)"] none,
+    .call "" "hwaccel_init" [] none,
+    .cond "!(hwaccel == HW_X86_AESNI)" "<else1>",
+    .call "" "crypto_aes_key_expand_aesni" ["key_unexpanded", "len"] none,
+    .ret,
+    .label "<else1>",
+    .cond "!(hwaccel == HW_ARM_AES)" "<else2>",
+    .call "" "crypto_aes_key_expand_arm" ["key_unexpanded", "len"] none,
+    .ret,
+    .label "<else2>",
+    .call "kexp" "malloc" ["sizeof(AES_KEY)"] (some "err0"),
+    .call "" "AES_set_encrypt_key" ["key_unexpanded", "(int)(len * 8)", "kexp"] (some "err1"),
+    .ret,
+    .label "err1",
+    .call "" "free" ["kexp"] none,
+    .label "err0",
+    .ret])]
+
+/-- `crypto_aes_key_expand_aesni` in crypto/crypto_aes_aesni.c, configuration [CPUSUPPORT_X86_AESNI] -/
 def aesKeyExpandAesni : List Stmt := [
   .call "kexp" "malloc" ["sizeof(struct crypto_aes_key_aesni)"] (some "err0"),
   .call "" "ALIGN_PTR_INIT" ["kexp->rkeys", "sizeof(__m128i)"] none,
   .call "" "crypto_aes_key_expand_128_aesni" ["key_unexpanded", "kexp->rkeys"] none,
   .call "" "crypto_aes_key_expand_256_aesni" ["key_unexpanded", "kexp->rkeys"] none,
-  .call "" "warn0" ["\"\"", "len"] none,
-  .goto "err1",
+  .cond "!(len == 32)" "err1",
+  .ret,
   .label "err1",
   .call "" "free" ["kexp"] none,
   .label "err0",
   .ret]
 
-/-- `crypto_aesctr_free` in crypto/crypto_aesctr.c -/
+/-- `crypto_aes_key_expand_aesni`: one statement list per preprocessor configuration (named by the macros defined in it) -/
+def aesKeyExpandAesniConfigs : List (String × List Stmt) := [
+  ("CPUSUPPORT_X86_AESNI", aesKeyExpandAesni)]
+
+/-- `crypto_aes_key_expand_arm` in crypto/crypto_aes_arm.c, configuration [CPUSUPPORT_ARM_AES] -/
+def aesKeyExpandArm : List Stmt := [
+  .call "kexp" "malloc" ["sizeof(struct crypto_aes_key_arm)"] (some "err0"),
+  .call "" "ALIGN_PTR_INIT" ["kexp->rkeys", "sizeof(uint8x16_t)"] none,
+  .call "" "crypto_aes_key_expand_128_arm" ["key_unexpanded", "kexp->rkeys"] none,
+  .call "" "crypto_aes_key_expand_256_arm" ["key_unexpanded", "kexp->rkeys"] none,
+  .cond "!(len == 32)" "err1",
+  .ret,
+  .label "err1",
+  .call "" "free" ["kexp"] none,
+  .label "err0",
+  .ret]
+
+/-- `crypto_aes_key_expand_arm`: one statement list per preprocessor configuration (named by the macros defined in it) -/
+def aesKeyExpandArmConfigs : List (String × List Stmt) := [
+  ("CPUSUPPORT_ARM_AES", aesKeyExpandArm)]
+
+/-- `crypto_aesctr_free` in crypto/crypto_aesctr.c, configuration [] -/
 def aesctrFree : List Stmt := [
   .cond "stream == NULL" "<return>",
   .call "" "insecure_memzero" ["stream", "sizeof(struct crypto_aesctr)"] none,
   .call "" "free" ["stream"] none]
 
-/-- `crypto_aesctr_alloc` in crypto/crypto_aesctr.c -/
+/-- `crypto_aesctr_free`: one statement list per preprocessor configuration (named by the macros defined in it) -/
+def aesctrFreeConfigs : List (String × List Stmt) := [
+  ("", aesctrFree)]
+
+/-- `crypto_aesctr_alloc` in crypto/crypto_aesctr.c, configuration [] -/
 def aesctrAlloc : List Stmt := [
   .call "stream" "malloc" ["sizeof(struct crypto_aesctr)"] (some "err0"),
   .ret,
   .label "err0",
   .ret]
 
-/-- `crypto_aesctr_buf` in crypto/crypto_aesctr.c -/
+/-- `crypto_aesctr_alloc`: one statement list per preprocessor configuration (named by the macros defined in it) -/
+def aesctrAllocConfigs : List (String × List Stmt) := [
+  ("", aesctrAlloc)]
+
+/-- `crypto_aesctr_buf` in crypto/crypto_aesctr.c, configuration [] -/
 def aesctrBuf : List Stmt := [
   .call "" "assert" ["key != NULL"] none,
   .call "" "crypto_aesctr_init2" ["stream", "key", "nonce"] none,
   .call "" "crypto_aesctr_stream" ["stream", "inbuf", "outbuf", "buflen"] none,
   .call "" "insecure_memzero" ["stream", "sizeof(struct crypto_aesctr)"] none]
 
-/-- `aws_readkeys` in aws/aws_readkeys.c -/
+/-- `crypto_aesctr_buf`: one statement list per preprocessor configuration (named by the macros defined in it) -/
+def aesctrBufConfigs : List (String × List Stmt) := [
+  ("", aesctrBuf)]
+
+/-- `aws_readkeys` in aws/aws_readkeys.c, configuration [] -/
 def awsReadkeys : List Stmt := [
   .call "f" "fopen" ["fname", "\"\""] (some "err0"),
   .call "" "fgets" ["buf", "sizeof(buf)", "f"] none,
@@ -204,11 +372,13 @@ def awsReadkeys : List Stmt := [
   .call "" "warn0" ["\"\"", "fname"] none,
   .call "p" "strchr" ["buf", "'c'"] none,
   .cond "p == NULL" "err3",
-  .call "" "strcmp" ["buf", "\"\""] (some "err2"),
   .call "" "strcmp" ["buf", "\"\""] none,
-  .call "" "warn0" ["\"\""] none,
-  .goto "err2",
-  .call "*key_secret" "strdup" ["p"] none,
+  .cond "*key_id != NULL" "err2",
+  .call "*key_id" "strdup" ["p"] (some "err2"),
+  .call "" "strcmp" ["buf", "\"\""] none,
+  .cond "*key_secret != NULL" "err2",
+  .call "*key_secret" "strdup" ["p"] (some "err2"),
+  .cond "!(strcmp(buf, \"\") == 0)" "err3",
   .call "" "ferror" ["f"] (some "err2"),
   .call "" "fclose" ["f"] (some "err1"),
   .cond "(*key_id == NULL) || (*key_secret == NULL)" "err1",
@@ -224,6 +394,10 @@ def awsReadkeys : List Stmt := [
   .call "" "free" ["*key_secret"] none,
   .label "err0",
   .ret]
+
+/-- `aws_readkeys`: one statement list per preprocessor configuration (named by the macros defined in it) -/
+def awsReadkeysConfigs : List (String × List Stmt) := [
+  ("", awsReadkeys)]
 
 def hmacSha1CtxFields : List (String × String) := [("SHA1_CTX", "ictx"), ("SHA1_CTX", "octx")]
 def hmacMd5CtxFields : List (String × String) := [("MD5_CTX", "ictx"), ("MD5_CTX", "octx")]
